@@ -333,6 +333,18 @@ def history_write_after_edit(fmt, W, m, spec, workdir):
     if t_edit != t_fresh:
         return ("write-after-in-place-edit", "stale-output", "output after an in-place edit differs from the output of a "
                 "freshly built model with the same edit")
+    # the written document must denote the EDITED model (a cache keyed by an equality that ignores the edited
+    # field would serve the stale document to the fresh model as well)
+    try:
+        _, R = fmt.rw()
+        o = S.observe(R(os.path.join(workdir, "edit." + fmt.ext)).transform())
+        e = S.norm_spec(es)
+        if fmt.proj_feature(o["root"]) != fmt.proj_feature(e["root"]) or (
+                fmt.ctc_names and [c["name"] for c in o["ctcs"]] != [c["name"] for c in e["ctcs"]]):
+            return ("write-after-in-place-edit", "stale-output", "the document written after an in-place edit does not "
+                    "contain the edit: " + diff_symptom(fmt, e["root"], o["root"]))
+    except Exception as ex:  # noqa: BLE001
+        return ("write-after-in-place-edit", f"raises:{type(ex).__name__}@reader", str(ex)[:200])
     # restore the original state on the live object (cycles continue with it)
     o = list(S.features(spec["root"]))
     byname = {f["name"]: f for f in o}
@@ -531,7 +543,7 @@ def run_shard_for(fmt_name, prop, desc, acc, big_sizes=(20, 60)):
         # large models: 60-150 features with several injections (size/width/depth thresholds)
         for b in range(desc.get("large", 0)):
             r = rand.rng(seed, prop, "large", i, b)
-            base = inject.base(r, 60, 150 if fmt_name != "uvl" else 90)
+            base = inject.base(r, 60, 230 if fmt_name != "uvl" else 90)
             if judge(fmt, base, desc["cycles"], work):
                 acc.fail("large-base", "same-model", fmt.name, [], "large-base-fails", "a 60-150 feature base fails",
                          {"fmt": fmt_name, "spec": base, "cycles": desc["cycles"], "tags": []}, S.digest(base))
